@@ -33,6 +33,10 @@ def gen(R):
     scn = {"kind": kind, "pool": R.choice([1, 2, 3]), "handler": R.choice(["absent", True, False, None]), "version": ver,
            "chunks": chunks, "app_close": True, "closes": R.choice([1, 2, 2, 3]), "app_after": R.choice([0, 0, 5, 10, 20, 40]),
            "fault": ("app-close",)}
+    if scn["closes"] >= 2 and R.random() < 0.04:
+        scn["flood"] = R.choice([5, 40])      # oracle-only runs (the model has no producer outside the pool)
+        scn["fault"] = ("app-close", "flood")
+        return scn
     x = R.random()
     if x < 0.2:
         scn["end"] = R.choice(["eof", "reset", "timedout", "bare"])
@@ -224,6 +228,8 @@ def stream(tier):
             res.violation("close-hangs", "close() never returned (nothing left to run)", inp)
         want_h = 0 if scn["handler"] == "absent" else 1
         # ---- the tie
+        if scn.get("flood"):
+            continue
         acts, lines, problems = to_actions(scn, out)
         if "?" in acts or problems:
             res.mismatch("appclose-map", "every stop-flag / shutdown / socket-close operation is the application thread's", "; ".join(problems) or acts)
